@@ -410,7 +410,7 @@ theorem acceptsF_sound (fuel : Nat) : ∀ (wire : Bytes) (senders : List Sender)
       rcases h2 with h2 | ⟨f, hf, h3⟩
       · have : wire = [] := by simpa using h2
         exact ⟨[], [], by simp [this], by simp, Or.inl rfl⟩
-      · simp only [Bool.and_eq_true, decide_eq_true_eq, beq_iff_eq] at h3
+      · simp only [decide_eq_true_eq, beq_iff_eq] at h3
         exact ⟨[], wire, by simp, by simp, Or.inr ⟨f, hf, h3.1, h3.2⟩⟩
     · simp only [List.any_eq_true, List.mem_range] at h
       obtain ⟨i, _, hi⟩ := h
